@@ -1579,6 +1579,24 @@ int QSexact_solver (mpq_QSdata * p_mpq,
 					last_status = *status = QS_LP_UNSOLVED;
 				}
 			}
+			else if (*status == QS_LP_OPTIMAL)
+			{
+				/* the float stage said infeasible, but the exact basic solution of the
+				 * basis it stopped at is optimal: certify and deliver it, and never
+				 * leave an OPTIMAL status behind without a solution */
+				mpq_EGlpNumFreeArray (y_mpq);
+				x_mpq = mpq_EGlpNumAllocArray (p_mpq->qslp->ncols);
+				y_mpq = mpq_EGlpNumAllocArray (p_mpq->qslp->nrows);
+				EGcallD(mpq_QSget_x_array (p_mpq, x_mpq));
+				EGcallD(mpq_QSget_pi_array (p_mpq, y_mpq));
+				if (QSexact_optimal_test (p_mpq, x_mpq, y_mpq, basis))
+				{
+					optimal_output (p_mpq, x, y, x_mpq, y_mpq);
+					goto CLEANUP;
+				}
+				last_status = *status = QS_LP_UNSOLVED;
+				mpq_EGlpNumFreeArray (x_mpq);
+			}
 		}
 		mpq_EGlpNumFreeArray (y_mpq);
 		break;
@@ -1757,6 +1775,24 @@ int QSexact_solver (mpq_QSdata * p_mpq,
 					{
 						last_status = *status = QS_LP_UNSOLVED;
 					}
+				}
+				else if (*status == QS_LP_OPTIMAL)
+				{
+					/* the float stage said infeasible, but the exact basic solution of the
+					 * basis it stopped at is optimal: certify and deliver it, and never
+					 * leave an OPTIMAL status behind without a solution */
+					mpq_EGlpNumFreeArray (y_mpq);
+					x_mpq = mpq_EGlpNumAllocArray (p_mpq->qslp->ncols);
+					y_mpq = mpq_EGlpNumAllocArray (p_mpq->qslp->nrows);
+					EGcallD(mpq_QSget_x_array (p_mpq, x_mpq));
+					EGcallD(mpq_QSget_pi_array (p_mpq, y_mpq));
+					if (QSexact_optimal_test (p_mpq, x_mpq, y_mpq, basis))
+					{
+						optimal_output (p_mpq, x, y, x_mpq, y_mpq);
+						goto CLEANUP;
+					}
+					last_status = *status = QS_LP_UNSOLVED;
+					mpq_EGlpNumFreeArray (x_mpq);
 				}
 			}
 			mpq_EGlpNumFreeArray (y_mpq);
